@@ -62,6 +62,26 @@ Proof.
 Qed.
 Print Assumptions C16_edits_relation_sane.
 
+(* with all three kinds enabled (the default) the NFA accepts, among the words over the alphabet,
+   exactly those at classical Levenshtein distance <= k from the reference ([lev] is the usual
+   recursive definition); for any subset of kinds the cost of a derivation is at least that
+   distance *)
+Theorem C16_levenshtein : forall syms ref k,
+  (0 <= k)%Z -> (forall c, In c ref -> In c syms) ->
+  exists m, edit_nfa syms ref k true true true = Ok m /\
+            forall w, (forall a, In a w -> In a syms) -> (L_nfa m w <-> lev ref w <= Z.to_nat k).
+Proof.
+  intros syms ref k Hk Hr.
+  destruct (C16_edit_nfa_lang syms ref k true true true Hk eq_refl Hr) as [m [Hm HL]].
+  exists m. split; [exact Hm|]. intros w Hw. rewrite (HL w). apply within_lev. exact Hw.
+Qed.
+Print Assumptions C16_levenshtein.
+
+Theorem C16_cost_at_least_levenshtein : forall syms ins del sub ref w c,
+  edits syms ins del sub ref w c -> lev ref w <= c.
+Proof. intros syms ins del sub ref w c. apply edits_lev_le. Qed.
+Print Assumptions C16_cost_at_least_levenshtein.
+
 (* non-vacuity: reference "ab" (symbols 0,1), one edit of any kind *)
 Example C16_example :
   match edit_nfa [0;1] [0;1] 1 true true true with
@@ -79,6 +99,9 @@ Example C16_hamming_example :
   | Err _ => False
   end.
 Proof. vm_compute. reflexivity. Qed.
+
+Example C16_lev_example : lev [0;1;0;1] [1;0;1] = 1 /\ lev [0;0] [1;1;1] = 3 /\ lev [] [0] = 1.
+Proof. vm_compute. repeat split. Qed.
 
 Example C16_refusal_example :
   edit_nfa [0;1] [0;1] (-1) true true true = Err ValueErr /\
